@@ -151,6 +151,7 @@ class StageSampler:
 
     def __init__(self):
         self.samples = {}
+        self.trials = []
         self.env = None
 
     def install(self):
@@ -168,12 +169,41 @@ class StageSampler:
 
         probes.tap_setattr(AbstractTAP, ["current_kill_chain_stage"], on_stage)
 
+        def post_trial(agent, tok, res, exc, *a, **k):
+            if me.env is None or exc is not None:
+                return
+            st = agent.config.agent_settings
+            me.trials.append((me.env.game.step_counter, agent.config.ref, bool(res), bool(st.repeat_kill_chain_stages), bool(st.repeat_kill_chain),
+                              getattr(agent.current_kill_chain_stage, "name", None)))
+
+        probes.wrap(AbstractTAP, "_agent_trial_handler", None, post_trial)
+
     def after_reset(self, env, obs, ep):
         self.samples = {}
+        self.trials = []
         self.env = env
 
     def after_step(self, env, action, res, t):
         pass
+
+    def check_trials(self, env, cov, found):
+        """a stage's probability trial that fails while repeat_kill_chain_stages is false fails the kill chain: when the agent's turn is over the
+        stage is FAILED (or, with repeat_kill_chain, already NOT_STARTED again) - it is not still the stage that was being attempted"""
+        for step, name, ok, rep_stages, rep_chain, stage_after_handler in self.trials:
+            cov.inc("tap_stage_trials")
+            if ok:
+                continue
+            cov.inc("tap_stage_trials_failed")
+            if rep_stages:
+                continue
+            cov.inc("tap_stage_trials_failed_without_stage_repeat")
+            writes = [(t, a, b) for t, a, b in self.samples.get(name, []) if t == step]
+            end = writes[-1][2] if writes else stage_after_handler
+            if end not in ("FAILED", "NOT_STARTED"):
+                found.append((f"failed-trial-does-not-fail-kill-chain/{env.game.agents[name].config.type}",
+                              f"{name}: step {step}: a stage's probability trial failed with repeat_kill_chain_stages=false, but the kill chain stage at the end of "
+                              f"the agent's turn is {end} (stage writes in that step: {writes})"))
+                return
 
 
 def mutate_settings(cfg, rnd, cov, clean=None, p_nodes=0.6, p_repeat_scan=0.3):
@@ -257,7 +287,7 @@ class Check:
         "final implemented kill-chain stage: TAP001 PAYLOAD, TAP003 EXPLOIT (later enum members are not implemented stages); TAP agents may act from their starting nodes and the configured C2 server",
         "max_executions is judged for periodic-agent only (the DM agent does not document it)",
     ]
-    min_monitor = {"kill_chains_completed": 2, "executions_observed": 300, "gaps_measured": 200, "tap_actions_failed": 40, "probabilistic_choices": 2000, "agents_with_zero_probability_entries": 5}
+    min_monitor = {"kill_chains_completed": 2, "executions_observed": 300, "gaps_measured": 200, "tap_actions_failed": 40, "tap_stage_trials_failed_without_stage_repeat": 5, "probabilistic_choices": 2000, "agents_with_zero_probability_entries": 5}
     case_timeout = {"quick": 2400, "thorough": 10800}
 
     def cases(self, tier, seed):
@@ -287,6 +317,10 @@ class Check:
                           "steps": 128 if q else 200, "episodes": 1, "clean": clean})
             specs.append({"name": f"uc7-tap003-complete-{clean}", "src": ["shipped", "uc7_config_tap003.yaml"], "seed": seed * 100 + 50 + i, "policy": "idle",
                           "steps": 80 if q else 160, "episodes": 1, "clean": clean})
+        for i in range(6 if q else 24):  # stages that fail their probability trial late in the chain, with stage repetition off
+            f = ["uc7_config.yaml", "uc7_config_tap003.yaml"][i % 2]
+            specs.append({"name": f"{f}-stage-fail-{i}", "src": ["shipped", f], "seed": seed * 100 + 30 + i, "policy": "idle", "steps": 100 if q else 160,
+                          "episodes": 2, "clean": ["repeat", "once"][(i // 2) % 2], "stage_fail": [0.8, 0.9, 0.6][i % 3]})
         for i in range(12 if q else 60):
             sd = seed * 1000 + i
             specs.append({"name": f"gen-{sd}", "src": ["gen", {"seed": sd, "knobs": {"p_random_agent": 0.5}}], "seed": sd, "policy": pols[i % 4],
@@ -298,6 +332,14 @@ class Check:
         rnd = random.Random(spec["seed"])
         cfg, meta = envrun.scenario_source(*spec["src"])
         cfg = mutate_settings(cfg, rnd, cov, spec.get("clean"))
+        if spec.get("stage_fail"):  # every stage may fail its probability trial, and a failed stage is not repeated
+            for a in cfg["agents"]:
+                if a["type"] in TAP_FINAL:
+                    s_ = a["agent_settings"]
+                    s_["repeat_kill_chain_stages"] = False
+                    for o in (s_.get("kill_chain") or {}).values():
+                        if isinstance(o, dict) and "probability" in o:
+                            o["probability"] = spec["stage_fail"]
         cfg["game"]["max_episode_length"] = spec["steps"]
         env = envdrv.make_env(cfg)
         pol = envrun.Policy(spec["policy"], spec["seed"])
@@ -327,6 +369,12 @@ class Check:
                     break
             if crashed:
                 break
+            tfound = []
+            sampler.check_trials(env, cov, tfound)
+            for mech, msg in tfound:
+                if not any(v["mech"] == mech for v in out):
+                    out.append(viol(mech, f"{spec['src']} episode {ep}: {msg}", {"settings": [a.get("agent_settings") for a in cfg["agents"] if a["type"].startswith("tap")],
+                                                                                  "seed": spec["seed"]}))
             for a in cfg["agents"]:
                 name, typ = a["ref"], a["type"]
                 ag = env.game.agents[name]
